@@ -202,7 +202,7 @@ def run_gen(args, PROP, gen_kind, modes, rule, extra_assumptions, extra_coverage
                 line = next((l for l in (d["failed_lines"] or []) if name in l), "")
                 gi = next((g for g in gen if g["name"] == "g%d" % ci), {})
                 defn = gi.get("definition") or ""
-                found.append((r["job"], ci, tape, P + "/fail", "%s ; case: %s with %s request(s); definition: %s" % (line[:1500], gi.get("stream_type"), gi.get("requests"), defn[:1500])))
+                found.append((r["job"], ci, tape, P + "/fail", "%s ; case: %s with %s request(s); shape: %s; definition: %s" % (line[:1500], gi.get("stream_type"), gi.get("requests"), gi.get("shape"), defn[:1500])))
             if not seen:
                 found.append((r["job"], None, None, P + "/fail", "run %s failed: err=%r %s" % (r["job"]["name"], d["err"], " | ".join((d["failed_lines"] or [])[:2])[:1500])))
 
@@ -221,6 +221,7 @@ def run_gen(args, PROP, gen_kind, modes, rule, extra_assumptions, extra_coverage
             continue
         reported.add(cls)
         path = os.path.join(VERIF, "replays", "%s-%s-%s.json" % (PROP, job["name"], ci))
+        orig_detail, orig_tape = detail, tape
         if tape is not None:
             # confirm alone (three fresh processes, same verdict), then minimise the definition
             want = cls.split("/", 1)[1]
@@ -238,9 +239,10 @@ def run_gen(args, PROP, gen_kind, modes, rule, extra_assumptions, extra_coverage
             rr = rerun_single(binp, job, small, work, "minimal")
             dd = rr["data"] or {}
             gi = (dd.get("gen") or [{}])[0]
-            detail = "minimised (%d -> %d tape entries): load=%s %s ; definition: %s" % (len(tape), len(small), gi.get("load"), " | ".join((dd.get("failed_lines") or [])[:1])[:1500], (gi.get("definition") or "")[:2500])
+            detail = "minimised (%d -> %d tape entries): load=%s %s ; shape: %s; definition: %s" % (len(tape), len(small), gi.get("load"), " | ".join((dd.get("failed_lines") or [])[:1])[:1500], gi.get("shape"), (gi.get("definition") or "")[:2500])
             tape = small
-        json.dump({"property": PROP, "class": cls, "detail": detail, "tape": tape, "job": job, "config_text": open(job["config_file"]).read()}, open(path, "w"), indent=1)
+        json.dump({"property": PROP, "class": cls, "detail": detail, "tape": tape, "job": job, "config_text": open(job["config_file"]).read(),
+                   "detail_before_minimisation": orig_detail, "tape_before_minimisation": orig_tape}, open(path, "w"), indent=1)
         lines += ["VIOLATION property=%s replay=%s" % (PROP, path), "  class: " + cls, "  detail: " + detail[:3500]]
         exit_code = 1
 
